@@ -11,9 +11,9 @@
                         compiled schema; answers of ly_ctx_get_module_latest / _implemented; the hashed fields of
                         ly_ctx_get_modules_hash
    quiescent s          executable: nothing pending (unres empty, no to_compile mark), every implemented module is
-                        compiled against the current features and would compile again
-   keeps_features R s o executable: where the failing call jumps to its cleanup, every module that existed before still
-                        has its feature bits *)
+                        compiled against the current features and would compile again, single-module dep sets do not
+                        depend on features
+   step_mid R s o       the state where a failing call jumps to its cleanup (before the revert) *)
 From LY Require Import Base Context ContextP.
 Local Open Scope N_scope.
 
@@ -21,26 +21,33 @@ Local Open Scope N_scope.
 Definition failed_op_restores_statement : Prop :=
   forall R s o s', reachable R s -> step R s o = (s', RErr) -> obs s' = obs s.
 
-(* It does not hold: the faithful model violates it, and so does the library (same scripts, driver t_ctx; each
-   witness was observed on the real code first). Witness: a {feature f1; feature f2 {if-feature f1;}} implemented
-   with f1; lys_set_implemented(a, {f2}) fails (LY_EDENIED) and leaves f1 off and f2 on: lys_set_features flipped the
-   bits in place and the revert does not know about them. *)
+(* It still does not hold for every reachable state: with LY_CTX_EXPLICIT_COMPILE ctx->unres accumulates over the calls
+   until ly_ctx_compile(), and the revert of a failing call undoes what earlier successful calls did. Witness (observed
+   on the real library first): a compiled, b parsed successfully but not compiled yet; the failed parse of c (syntax
+   error) removes b from the context. (Open findings that do not show in obs: hidden flag bits, recompiled trees, the
+   assert of lys_parse_load - see the theorems below.) *)
 Theorem C09_failed_op_restores_refuted : ~ failed_op_restores_statement.
 Proof. exact full_statement_refuted. Qed.
 Print Assumptions C09_failed_op_restores_refuted.
 
-(* What holds: in a reachable quiescent state, a failing operation that does not change feature bits of an existing
-   module leaves the observable state as it was, whatever stage fails (syntax, import not found, duplicate definitions
-   found after the imports were resolved, another implemented revision, unknown feature, if-feature of an enabled
-   feature, a node that does not compile, leafref target, disabled list key), with or without LY_CTX_EXPLICIT_COMPILE.
-   The two side conditions are executable. Since /repo commit 21681e3 (the revert gives LYS_MOD_LATEST_REV back to the
-   newest remaining revision) no condition about the latest-revision flag is needed: reachability gives the invariant
-   that exactly the newest revision of every name carries the flag (ContextP.reachable_LJ), and the revert restores it. *)
-Theorem C09_failed_op_restores_partial : forall R s o s',
-  reachable R s -> quiescent s = true -> keeps_features R s o = true ->
-  step R s o = (s', RErr) -> obs s' = obs s.
+(* MAIN THEOREM. In a reachable state with nothing pending (quiescent: executable; every state of a context without
+   LY_CTX_EXPLICIT_COMPILE between two calls, and a context with explicit compilation right after ly_ctx_compile), a
+   failing lys_parse / ly_ctx_load_module / lys_set_implemented / ly_ctx_compile leaves the observable state as it was,
+   whatever stage fails (syntax, import not found, duplicate definitions found after the imports were resolved, another
+   implemented revision, unknown feature, if-feature of an enabled feature, a node that does not compile, leafref target,
+   disabled list key) and whatever it did before failing (created modules, took the latest-revision flag, changed
+   feature bits, implemented and compiled modules). Uses the code as of /repo commits 21681e3 (the revert gives
+   LYS_MOD_LATEST_REV back) and af27b8d (the revert writes the remembered feature states back and recompiles). *)
+Theorem C09_failed_op_restores : forall R s o s',
+  reachable R s -> quiescent s = true -> step R s o = (s', RErr) -> obs s' = obs s.
 Proof. exact failed_restores_reachable. Qed.
-Print Assumptions C09_failed_op_restores_partial.
+Print Assumptions C09_failed_op_restores.
+
+(* The remaining side condition is necessary (the witness of the refutation above is reachable and not quiescent). *)
+Theorem C09_quiescent_necessary :
+  exists R s o, reachable R s /\ quiescent s = false /\ snd (step R s o) = RErr /\ obs (fst (step R s o)) <> obs s.
+Proof. exact quiescent_necessary. Qed.
+Print Assumptions C09_quiescent_necessary.
 
 (* Regression of the defect fixed by 21681e3: a@2001 is in the context; lys_parse of a@2002 whose import is not found
    fails; at the cleanup jump a@2001 has lost LYS_MOD_LATEST_REV (lys_parse_in took it), and after the revert the
@@ -52,49 +59,35 @@ Theorem C09_latest_flag_given_back :
 Proof. exact latest_flag_given_back. Qed.
 Print Assumptions C09_latest_flag_given_back.
 
-(* Each of the two side conditions is necessary: a reachable witness that violates only that one and is not restored.
-   features: a {feature f1; feature f2 {if-feature f1;}} implemented with f1; lys_set_implemented(a, {f2}) fails
-             (LY_EDENIED) and leaves f1 off, f2 on, to_compile set; the later load of a correct module importing a
-             fails although it succeeds without the failed call.
-   features on a module that is only imported: the revert un-implements it but the bits stay, and the importer is
-             recompiled against them (its compiled schema changes).
-   quiescent: LY_CTX_EXPLICIT_COMPILE, b parsed successfully but not compiled yet; the failed parse of c (syntax
-             error) removes b from the context. *)
-Theorem C09_side_conditions_necessary :
-  (exists R s o, reachable R s /\ quiescent s = true /\ keeps_features R s o = false /\
-                 snd (step R s o) = RErr /\ obs (fst (step R s o)) <> obs s /\
-                 exists o2, snd (step R (fst (step R s o)) o2) = RErr /\ snd (step R s o2) = ROk) /\
-  (exists R s o, reachable R s /\ quiescent s = true /\ keeps_features R s o = false /\
-                 snd (step R s o) = RErr /\ obs (fst (step R s o)) <> obs s /\
-                 option_map m_impl (find_mod (0, 1) (mods s)) = Some false) /\
-  (exists R s o, reachable R s /\ quiescent s = false /\ keeps_features R s o = true /\
-                 snd (step R s o) = RErr /\ obs (fst (step R s o)) <> obs s).
-Proof. exact side_conditions_necessary. Qed.
-Print Assumptions C09_side_conditions_necessary.
+(* Regression of the defects fixed by af27b8d: a {feature f1; feature f2 {if-feature f1;}} with f1 on (implemented, or only
+   imported by b); lys_set_implemented(a, {f2}) fails (LY_EDENIED); at the cleanup jump f1 is off and f2 on; after the
+   revert the observable is what it was, and (implemented case) the later load of b importing a succeeds. *)
+Theorem C09_feature_bits_restored :
+  (reachable w2_R w2_s /\ snd (step w2_R w2_s w2_o) = RErr /\
+   option_map (fun m => map f_on (m_feats m)) (find_mod (0, 1) (mods (step_mid w2_R w2_s w2_o))) = Some [false; true] /\
+   obs (fst (step w2_R w2_s w2_o)) = obs w2_s /\
+   snd (step w2_R (fst (step w2_R w2_s w2_o)) (OpParse w_b1_imp_a FNull)) = ROk) /\
+  (reachable w2_R w3_s /\ snd (step w2_R w3_s w2_o) = RErr /\
+   option_map (fun m => map f_on (m_feats m)) (find_mod (0, 1) (mods (step_mid w2_R w3_s w2_o))) = Some [false; true] /\
+   obs (fst (step w2_R w3_s w2_o)) = obs w3_s).
+Proof. exact feature_bits_restored. Qed.
+Print Assumptions C09_feature_bits_restored.
 
-(* The hypotheses are satisfiable by non-trivial values: a context with a (features f1 on, f2 off) and b importing a;
-   ten failing operations, one per fault kind (leafref without target, import not found, duplicate feature after the
-   imports were resolved, if-feature of an enabled feature not satisfied, node that does not compile, disabled list
-   key, syntax error, module nobody has, unknown feature on an implemented module, unknown feature on a module that
-   is parsed again) satisfy them and return an error. *)
+(* The hypotheses are satisfiable by non-trivial values: a context with a (features f1 on, f2 off) and b importing a is
+   reachable and quiescent, and ten operations, one per fault kind (leafref without target, import not found, duplicate
+   feature after the imports were resolved, if-feature of an enabled feature not satisfied, node that does not compile,
+   disabled list key, syntax error, module nobody has, unknown feature on an implemented module, unknown feature on a
+   module that is parsed again) fail in it. *)
 Example C09_hypotheses_satisfiable :
   reachable w7_R w7_s /\ quiescent w7_s = true /\
-  forallb (fun o => keeps_features w7_R w7_s o &&
-                    match snd (step w7_R w7_s o) with RErr => true | _ => false end) w7_ops = true.
+  forallb (fun o => match snd (step w7_R w7_s o) with RErr => true | _ => false end) w7_ops = true.
 Proof. exact hypotheses_satisfiable. Qed.
 
-(* Fault kinds that restore unconditionally (from a reachable quiescent state): a syntax error in the module text ... *)
+(* A syntax error in the module text always fails (and restores). *)
 Theorem C09_syntax_fault_restores : forall R s d sel s' r,
   reachable R s -> quiescent s = true -> d_fault d = 1 -> step R s (OpParse d sel) = (s', r) -> r = RErr /\ obs s' = obs s.
 Proof. exact syntax_fault_restores_reachable. Qed.
 Print Assumptions C09_syntax_fault_restores.
-
-(* ... and lys_set_implemented(m, NULL): whatever makes implementing a module without touching its features fail
-   (another revision is implemented, a node that does not compile, a leafref without target, a disabled list key). *)
-Theorem C09_failed_implement_restores : forall R s name rev s',
-  reachable R s -> quiescent s = true -> step R s (OpImpl name rev FNull) = (s', RErr) -> obs s' = obs s.
-Proof. exact failed_implement_restores_reachable. Qed.
-Print Assumptions C09_failed_implement_restores.
 
 (* ly_ctx_compile() with nothing pending does not fail and compiles nothing. *)
 Theorem C09_compile_quiescent_ok : forall R s, quiescent s = true ->
